@@ -111,13 +111,64 @@ Qed.
 
 Lemma goto_sound : forall id l fs, agoto id l fs = [] -> rgoto l fs = true.
 Proof.
-  intros id l fs H. unfold agoto in H. unfold rgoto.
+  intros id l fs H. unfold agoto in H. apply app_nil_inv in H as [H _]. unfold agoto_mix in H. unfold rgoto.
   destruct (find_and_check (fun f => has_label l (seen f)) hd_sofar fs) as [[|]|] eqn:E1.
   - rewrite (back_some l fs E1). reflexivity.
   - discriminate.
   - destruct (back_none l fs E1) as [Hb Hs]. rewrite Hb.
     destruct (find_and_check (lbl_final l) hd_final fs) as [[|]|] eqn:E2; try discriminate.
     rewrite (fwd_some l fs Hs E2). reflexivity.
+Qed.
+
+(* (T) visitors.Goto refuses to cross a defer block on its way to the label's scope (330205b) *)
+Lemma gen_goto_checked : gen_goto_checks_defer_block = true.
+Proof. reflexivity. Qed.
+
+Lemma walk_back : forall l fs,
+  walk_meets_deferblock (fun f => has_label l (seen f)) fs = leaves_defer_back l fs.
+Proof.
+  induction fs as [|f r IH]; simpl; [reflexivity|]. destruct (has_label l (seen f)); [reflexivity|].
+  rewrite IH. reflexivity.
+Qed.
+
+Lemma leaves_back_none : forall l fs, leaves_defer_back l fs = None ->
+  Forall (fun f => has_label l (seen f) = false) fs.
+Proof.
+  induction fs as [|f r IH]; intro H; simpl in *; [constructor|].
+  destruct (has_label l (seen f)) eqn:E; [discriminate|].
+  destruct (leaves_defer_back l r); [discriminate|]. constructor; auto.
+Qed.
+
+Lemma walk_fwd : forall l fs, Forall (fun f => has_label l (seen f) = false) fs ->
+  walk_meets_deferblock (lbl_final l) fs = leaves_defer_fwd l fs.
+Proof.
+  induction fs as [|f r IH]; intro H; simpl; [reflexivity|]. inversion H as [|? ? Hf Hr]; subst.
+  unfold lbl_final at 1. rewrite Hf. simpl. destruct (has_label l (rest f)); [reflexivity|].
+  rewrite (IH Hr). reflexivity.
+Qed.
+
+Lemma goto_defer_sound : forall id l fs, agoto id l fs = [] -> goto_leaves_defer l fs = false.
+Proof.
+  intros id l fs H. unfold agoto in H. apply app_nil_inv in H as [_ H].
+  rewrite gen_goto_checked in H. simpl in H.
+  destruct (goto_out_of_deferblock l fs) eqn:E; [discriminate|]. clear H.
+  unfold goto_out_of_deferblock in E. unfold goto_leaves_defer. rewrite walk_back in E.
+  destruct (leaves_defer_back l fs) as [b|] eqn:Eb; [exact E|].
+  rewrite (walk_fwd l fs (leaves_back_none l fs Eb)) in E. exact E.
+Qed.
+
+Lemma goto_stays_sound :
+  (forall s, forall fs id, alab_stmt fs id s = [] -> rgd_stmt fs s = true) /\
+  (forall b, forall fs sn isd, alab_block fs sn isd b = [] -> rgd_block fs sn isd b = true) /\
+  (forall cs, forall fs, alab_cases fs cs = [] -> rgd_cases fs cs = true).
+Proof.
+  apply sbc_mutind; try (intros; reflexivity); try (intros; simpl in *; auto; fail).
+  - (* If *) intros t IHt e IHe fs id H. simpl in *. apply app_nil_inv in H as [H1 H2]. rewrite IHt, IHe; auto.
+  - (* Switch *) intros cs IHc els d IHd fs id H. simpl in *. apply app_nil_inv in H as [H1 H2]. rewrite IHc, IHd; auto.
+  - (* Goto *) intros l fs id H. simpl in *. rewrite (goto_defer_sound id l fs H). reflexivity.
+  - (* BCons *) intros id s IHs r IHr fs sn isd H. simpl in *. apply app_nil_inv in H as [H1 H2].
+    rewrite (IHs _ id H1). simpl. apply IHr; assumption.
+  - (* CCons *) intros cid cv b IHb r IHr fs H. simpl in *. apply app_nil_inv in H as [H1 H2]. rewrite IHb, IHr; auto.
 Qed.
 
 Lemma labels_sound :
@@ -519,8 +570,10 @@ Proof.
   apply (proj1 (proj2 names_iff) p [mkn false []; mkn true []] [] []); [discriminate | split; [constructor | reflexivity] | exact H].
 Qed.
 
-Theorem labels_sound_thm : forall p, off_labels p = [] -> rule_labels p = true.
-Proof. intros p H. exact (proj1 (proj2 labels_sound) p [] [] false H). Qed.
+Theorem labels_sound_thm : forall p, off_labels p = [] -> rule_labels p = true /\ rule_goto_stays_in_defer p = true.
+Proof.
+  intros p H. split; [exact (proj1 (proj2 labels_sound) p [] [] false H) | exact (proj1 (proj2 goto_stays_sound) p [] [] false H)].
+Qed.
 
 Theorem consts_sound_thm : forall p, off_consts p = [] -> rule_consts p = true.
 Proof. intros p H. exact (proj1 (proj2 consts_sound) p H). Qed.
@@ -540,7 +593,8 @@ Qed.
 Theorem analyzer_sound_partial : forall p, analyzer_ok p = true -> rule_ok p = true.
 Proof.
   intros p H. destruct (analyzer_ok_parts p H) as (H1 & H2 & H3 & H4 & H5). unfold rule_ok.
-  rewrite (flow_sound_thm p H1), (names_sound_thm p H2), (labels_sound_thm p H3), (consts_sound_thm p H4), (switch_sound_thm p H5).
+  destruct (labels_sound_thm p H3) as [H3a H3b].
+  rewrite (flow_sound_thm p H1), (names_sound_thm p H2), H3a, H3b, (consts_sound_thm p H4), (switch_sound_thm p H5).
   reflexivity.
 Qed.
 
@@ -548,29 +602,22 @@ Qed.
 Definition analyzer_sound_full : Prop := forall p, analyzer_ok p = true -> rule_ok_full p = true.
 Definition labels_sound_full : Prop := forall p, off_labels p = [] -> rule_labels_full p = true.
 
-(* ::l1::  defer goto l1 end : the goto leaves the defer block *)
+(* ::l1::  defer goto l1 end : the goto leaves the defer block - rejected since 330205b (regression witness) *)
 Definition witness_goto_leaves_defer : block :=
   BCons 1 (Label 1) (BCons 2 (Defer (BCons 3 (Goto 1) BNil)) BNil).
+
+Example witness_goto_leaves_defer_rejected :
+  offenders witness_goto_leaves_defer = [(3%nat, KGotoDefer)] /\ rule_goto_stays_in_defer witness_goto_leaves_defer = false.
+Proof. split; vm_compute; reflexivity. Qed.
 
 (* do ::l1:: end  ::l1:: : the label is repeated in the function (not visible at the second declaration) *)
 Definition witness_label_repeated : block :=
   BCons 1 (Do (BCons 2 (Label 1) BNil)) (BCons 3 (Label 1) BNil).
 
-Lemma witness_goto_leaves_defer_facts :
-  analyzer_ok witness_goto_leaves_defer = true /\ rule_ok witness_goto_leaves_defer = true /\
-  rule_goto_stays_in_defer witness_goto_leaves_defer = false.
-Proof. repeat split; vm_compute; reflexivity. Qed.
-
 Lemma witness_label_repeated_facts :
   analyzer_ok witness_label_repeated = true /\ rule_ok witness_label_repeated = true /\
   rule_labels_unique witness_label_repeated = false.
 Proof. repeat split; vm_compute; reflexivity. Qed.
-
-Theorem labels_sound_refuted : ~ labels_sound_full.
-Proof.
-  intro H. assert (Ho : off_labels witness_goto_leaves_defer = []) by (vm_compute; reflexivity).
-  specialize (H _ Ho). vm_compute in H. discriminate.
-Qed.
 
 Theorem labels_unique_refuted : ~ (forall p, off_labels p = [] -> rule_labels_unique p = true).
 Proof.
@@ -580,7 +627,7 @@ Qed.
 
 Theorem analyzer_sound_refuted : ~ analyzer_sound_full.
 Proof.
-  intro H. destruct witness_goto_leaves_defer_facts as (Ha & _ & _).
+  intro H. destruct witness_label_repeated_facts as (Ha & _ & _).
   specialize (H _ Ha). vm_compute in H. discriminate.
 Qed.
 
